@@ -932,7 +932,9 @@ impl<'a, W: Write + 'a> ser::SerializeSeq for SeqSerializer<'a, W> {
             SeqSerializerState::Buffer(buf) => buf,
         };
 
-        match se.seq_type {
+        // The marker applies to this sequence only: the serializer may go on with another
+        // value (the value of a map entry whose key this was)
+        match se.seq_type.take() {
             None | Some(SequenceType::List) => {
                 write_list(&mut se.writer, num, &buf, &se.is_array_elem)
             }
